@@ -499,6 +499,10 @@ mismatch between values and axes""".format(inferred, self.values.shape)
     def dtype(self): 
         return self.values.dtype
 
+    # numpy scalars and arrays on the left-hand side defer to DimArray's
+    # reflected operators (e.g. np.float64(2) - a returns a DimArray)
+    __array_priority__ = 101
+
     @property
     def __array__(self): 
         """ so that np.array() works as expected (returns values)
